@@ -55,6 +55,7 @@ type Tree struct {
 	leafSequence   uint32
 	branchSequence uint32
 	isReplaying    bool
+	replayValue    []byte // value of the leaf being replayed from the change log (nil if values are not stored)
 	evictionDepth  int8
 }
 
@@ -403,7 +404,9 @@ func (tree *Tree) recursiveSet(node *Node, key []byte, value []byte) (
 			wasDirty := node.dirty
 			tree.mutateNode(node)
 			if tree.isReplaying {
+				// the change log carries the leaf hash; the leaf value travels in replayValue
 				node.hash = value
+				node.value = tree.replayValue
 			} else {
 				if wasDirty {
 					tree.workingBytes -= node.sizeBytes()
@@ -660,7 +663,9 @@ func (tree *Tree) NewLeafNode(key []byte, value []byte) *Node {
 	node.size = 1
 
 	if tree.isReplaying {
+		// the change log carries the leaf hash; the leaf value travels in replayValue
 		node.hash = value
+		node.value = tree.replayValue
 	} else {
 		node.value = value
 		node._hash()
